@@ -31,6 +31,15 @@ Theorem exchange_one_data_batch_per_input : forall rid canc sc k ins,
   /\ count is_turn_call (snd (loop Exchange rid None canc sc k ins)) = length (live ins).
 Proof. exact exchange_one_per_input. Qed.
 
+(* Finish is refused on an exchange, and a refusal the state ignores changes nothing: the turn is judged as if
+   Finish had not been called (still one data batch required, the stream never ends on it). *)
+Theorem refused_finish_has_no_effect_on_exchange : forall t s,
+  run_turn Exchange (with_act t AEmitFinishIgnored) s = run_turn Exchange (with_act t AEmit) s
+  /\ run_turn Exchange (with_act t AFinishIgnored) s = run_turn Exchange (with_act t ANoEmit) s
+  /\ (forall fs, run_turn Exchange (with_act t AFinishIgnored) s <> TStop fs)
+  /\ (forall fs, run_turn Exchange (with_act t AEmitFinishIgnored) s <> TStop fs).
+Proof. exact refused_finish_no_effect. Qed.
+
 Theorem exchange_data_values_in_input_order : forall sc lv,
   concat (map data_value (filter is_data (exch_frames sc lv))) = exch_values sc lv.
 Proof. exact exchange_values_in_order. Qed.
